@@ -39,6 +39,7 @@ def c05(tier, seed):
 
 
 ENGINES = {
+    "history": ({"C03"}, "random chained ownership histories over a typed pool vs shadow Vec model + ledger"),
     "seqops": ({"C09"}, "Lengthen/Shorten/Split/Concat/Remove vs Vec, exhaustive N<=8 + boundary shapes"),
     "iterq": ({"C06"}, "by-value iterator vs VecDeque / native-array twins: exhaustive one-step + random sequences"),
     "faults": ({"C04", "C05"}, "fault enumeration: injected panics at every callback index / destructor bombs, ownership ledger; native + Miri + ASan + memcheck"),
@@ -80,7 +81,40 @@ def c09(tier, seed):
     ]
 
 
+def c03(tier, seed):
+    if tier == "quick":
+        return [
+            Run("history", "debug", ["--flavours", "Tok,ZTok,Tok24,u32,String", "--budget", "2400"], shards=8),
+            Run("history", "miri", ["--flavours", "HeapTok,ZTok", "--budget", "32"], shards=16, label="history/miri"),
+        ]
+    return [
+        Run("history", "debug", ["--flavours", "Tok,ZTok,Tok24,u32,String", "--budget", "120000"], shards=16),
+        Run("history", "release", ["--flavours", "Tok,ZTok,Tok24,u32,String", "--budget", "120000"], shards=16),
+        Run("history", "miri", ["--flavours", "HeapTok,ZTok,u32", "--budget", "1600"], shards=32, label="history/miri"),
+        Run("history", "asan", ["--flavours", "HeapTok,String", "--budget", "20000"], shards=16),
+    ]
+
+
 SPECS = {
+    "C03": dict(
+        engine="history",
+        technique="random chained ownership histories against a shadow Vec model + ownership-ledger monitor; Miri/ASan on heap-payload elements",
+        level="exploration",
+        level_text=("Seeded random histories of 40..200 chained operations (outputs of one are inputs of the next) over a pool of arrays, "
+                    "by-value iterators, nested arrays, Vecs, boxed slices and elements handed to the caller; after every step each pooled "
+                    "object is compared by element identity with a shadow Vec updated by the Vec-level meaning of the operation, and at the "
+                    "end everything is dropped in random order and the ledger must show every element dropped exactly once and never "
+                    "observed after its drop. Reach comes from volume and chaining, not enumeration."),
+        level_note="Trusted: shadow-model bookkeeping in harness/src/bin/history.rs, the ledger, Miri/ASan. Lengths 0..=8 only (typed universe).",
+        runs=c03,
+        min_cases=500,
+        must_count=["steps", "op.zip", "op.unflatten", "op.iter.nth", "op.from_vec", "op.native_roundtrip", "op.iter.collect_wrong"],
+        exhaustive={"quick": False, "thorough": False},
+        rule=("one case = one seeded history (flavour, seed, index) of 40..200 random operations drawn from ~50 operation kinds; "
+              "non-trivial = at least 10 operations actually executed; distinctness by (flavour, seed, index)"),
+        explanation="shadow-model equality after every step + ledger reconciliation at the end; per-operation-kind step counts are in monitor_events",
+        assumptions=["array lengths in histories are 0..=8 (the closed universe of the generated typed dispatch)", "panic-free histories only (C04/C05 cover panics)"],
+    ),
     "C09": dict(
         engine="seqops",
         technique="reference-model monitor (Vec push/insert/pop/remove/split_at/extend/swap_remove) + address/extent checks + ownership ledger, exhaustive for N<=8; Miri/ASan for out-of-bounds copies",
